@@ -564,8 +564,11 @@ def render_uc(recs):
         elif k == '':
             out.append('')
         else:
-            qq = q + (' some description' if desc else '')
-            out.append('\t'.join([k, '0', '100', '98.5', '+', '0', '0', '100M', qq, t]))
+            # desc is a bit mask (True == 1): 1 = the query label carries a description, 2 = the target label does
+            d = int(desc)
+            qq = q + (' some description' if d & 1 else '')
+            tt = t + (' seed description 2' if d & 2 and t != '*' else '')
+            out.append('\t'.join([k, '0', '100', '98.5', '+', '0', '0', '100M', qq, tt]))
     return out
 
 
@@ -943,7 +946,7 @@ def gen_uc(rng):
                 recs.append(['S', q, '*', rng.random() < 0.2])
             seeds.append(q)
         elif r < 0.75:
-            recs.append(['H', query(), rng.choice(seeds), rng.random() < 0.2])
+            recs.append(['H', query(), rng.choice(seeds), rng.choice([0, 0, 0, 0, 1, 2, 2, 3])])
         elif r < 0.82:
             recs.append(['N', query(), '*', False])
         elif r < 0.88:
